@@ -37,6 +37,7 @@ class ExtVal:
     args: Tuple[Any, ...] = ()
     kwargs: Tuple[Tuple[str, Any], ...] = ()
     called: bool = False
+    recv: Any = field(default=None, compare=False)  # the external value an attribute / method was taken from (its text is part of `name`)
 
     def __repr__(self) -> str:
         if not self.called:
@@ -203,7 +204,7 @@ class Folder:
                 return FuncVal(m_, None, obj if m_.is_classmethod else None)
             return self.class_attr(obj.cls, attr)
         if isinstance(obj, ExtVal):
-            return ExtVal(f"{obj.name}.{attr}" if not obj.called else f"{obj!r}.{attr}")
+            return ExtVal(f"{obj.name}.{attr}" if not obj.called else f"{obj!r}.{attr}", recv=obj)
         if isinstance(obj, Module):
             return self.module_value(obj, attr)
         if isinstance(obj, Unknown):
@@ -528,7 +529,7 @@ class Folder:
                     return dict(*args, **kwargs)
                 except Exception:
                     return Unknown("OrderedDict failed")
-            return ExtVal(f.name, tuple(args), tuple(sorted(kwargs.items())), True)
+            return ExtVal(f.name, tuple(args), tuple(sorted(kwargs.items())), True, recv=f.recv)
         if isinstance(f, tuple) and f and f[0] == "builtin":
             return self._builtin(f[1], args, kwargs)
         if isinstance(f, tuple) and f and f[0] == "bound-builtin":
